@@ -475,6 +475,50 @@ def mapCoercion : (dst src : Ty) → Bool
   | .tmap _, .struct _ _ => true
   | _, _ => false
 
+/-! ## what filtering EXACTLY does to a value (audit C17-M1)
+
+`Drops` above is type-agnostic: an upper bound ("every member of the result stems from a member of
+the input").  `DropsT R t r v` is the typed, exact description of a non-fatal result `r` of filtering
+`v` to `t`: nothing changes where the type cannot filter; at `int` an `int64` literal stays and any
+other numeral may only be rewritten to the integer `R` relates it to; arrays keep their length and
+typed maps keep their keys (in order), members filtered pointwise; a struct becomes EXACTLY its
+declared members in declaration order, each present in the input (last wins) and filtered at the
+member's type (or copied, where that type cannot filter) – undeclared members are what is dropped,
+nothing else. -/
+mutual
+inductive DropsT (R : Num → Int → Prop) : Ty → J → J → Prop where
+  | keep (t : Ty) (v : J) : canFilter t = false → DropsT R t v v
+  | null (t : Ty) : DropsT R t .null .null
+  | intLit (v : Int) : Num.inInt64 v = true → DropsT R (.base .int) (.num (.int v)) (.num (.int v))
+  | intRewrite (n : Num) (i : Int) : R n i → DropsT R (.base .int) (.num (.int i)) (.num n)
+  | arr (t : Ty) (xs ys : List J) : canFilter t = true → DropsTL R t ys xs → DropsT R (.arr t) (.arr ys) (.arr xs)
+  | tmap (t : Ty) (kvs out : List (Bytes × J)) : canFilter t = true → DropsTM R t out kvs →
+      DropsT R (.tmap t) (.obj out) (.obj kvs)
+  | struct (n : Bytes) (fs : Fields) (kvs out : List (Bytes × J)) : DropsTF R fs kvs out →
+      DropsT R (.struct n fs) (.obj out) (.obj kvs)
+/-- pointwise, same length -/
+inductive DropsTL (R : Num → Int → Prop) : Ty → List J → List J → Prop where
+  | nil (t : Ty) : DropsTL R t [] []
+  | cons {t : Ty} {y x : J} {ys xs : List J} : DropsT R t y x → DropsTL R t ys xs → DropsTL R t (y :: ys) (x :: xs)
+/-- pointwise, same keys in the same order -/
+inductive DropsTM (R : Num → Int → Prop) : Ty → List (Bytes × J) → List (Bytes × J) → Prop where
+  | nil (t : Ty) : DropsTM R t [] []
+  | cons {t : Ty} {k : Bytes} {y x : J} {ys xs : List (Bytes × J)} : DropsT R t y x → DropsTM R t ys xs →
+      DropsTM R t ((k, y) :: ys) ((k, x) :: xs)
+/-- the declared members, in declaration order, each looked up (last wins) in the input -/
+inductive DropsTF (R : Num → Int → Prop) : Fields → List (Bytes × J) → List (Bytes × J) → Prop where
+  | nil (kvs : List (Bytes × J)) : DropsTF R .nil kvs []
+  | filtered {k : Bytes} {t : Ty} {r : Fields} {kvs out : List (Bytes × J)} {v y : J} :
+      getKey k kvs = some v → canFilter t = true → DropsT R t y v → DropsTF R r kvs out →
+      DropsTF R (.cons k t r) kvs ((k, y) :: out)
+  | copied {k : Bytes} {t : Ty} {r : Fields} {kvs out : List (Bytes × J)} {v : J} :
+      getKey k kvs = some v → canFilter t = false → DropsTF R r kvs out →
+      DropsTF R (.cons k t r) kvs ((k, v) :: out)
+end
+
+/-- the exact-decimal model's int rewrite: the literal's value is that integer, within `int64` -/
+def exactRewrite (n : Num) (i : Int) : Prop := n.intValue? = some i ∧ Num.inInt64 i = true
+
 end Martian.Types
 
 /-! # The same type system over numerals as Go reads them (float64 rounding)
